@@ -79,31 +79,38 @@ def build_call(pm, call, sources, lists, opts):
 
 
 # ---------------------------------------------------------------------------------- reference
+def _ref_one(pm, call, want_out):
+    sources = [wire.dec_src(call['source'])]
+    lists = [_mk_preserve(call.get('plv')), _mk_preserve(call.get('pgv'))]
+    opts = []
+    c = dict(call)
+    c['src'] = 0
+    c['pl'] = 0 if 'plv' in call else None
+    c['pg'] = 1 if 'pgv' in call else None
+    if isinstance(call.get('ra'), list):
+        opts = [_mk_rao(pm, call['ra'])]
+        c['ra'] = {'slot': 0}
+    fn = build_call(pm, c, sources, lists, opts)
+    return _outcome(fn, want_out)
+
+
 def run_ref_job(spec):
-    """Each call in its own pristine grandchild.  spec['calls'][i] carries VALUES (not slots)."""
+    """Each call in its own pristine process.  spec['calls'][i] carries VALUES (not slots).  Calls 0..n-2
+    run in grandchildren forked from this (still pristine) job child; the last call runs in the job child
+    itself, which has not touched the package until then."""
+    import json
     import python_minifier as pm
     _silence_stderr()
     want_out = bool(spec.get('want_outputs'))
     results = []
-    for call in spec['calls']:
+    calls = spec['calls']
+    for call in calls[:-1]:
         r, w = os.pipe()
         pid = os.fork()
         if pid == 0:
             try:
                 os.close(r)
-                sources = [wire.dec_src(call['source'])]
-                lists = [_mk_preserve(call.get('plv')), _mk_preserve(call.get('pgv'))]
-                opts = []
-                c = dict(call)
-                c['src'] = 0
-                c['pl'] = 0 if 'plv' in call else None
-                c['pg'] = 1 if 'pgv' in call else None
-                if isinstance(call.get('ra'), list):
-                    opts = [_mk_rao(pm, call['ra'])]
-                    c['ra'] = {'slot': 0}
-                fn = build_call(pm, c, sources, lists, opts)
-                out = _outcome(fn, want_out)
-                wire.write_frame(w, out)
+                wire.write_frame(w, _ref_one(pm, call, want_out))
             except BaseException as e:
                 try:
                     wire.write_frame(w, {'harness_error': 'ref grandchild: %r' % (e,)})
@@ -123,8 +130,9 @@ def run_ref_job(spec):
         if not data:
             results.append({'harness_error': 'ref grandchild died, wait status %d' % st})
         else:
-            import json
             results.append(json.loads(data))
+    if calls:
+        results.append(_ref_one(pm, calls[-1], want_out))
     return {'results': results}
 
 
